@@ -37,8 +37,9 @@ def parseChunk (s : String) : Bytes × Bool :=
 /-- `<entry>[+x11fix][+keycaps][+clipfix][+sgrfix]`: entry name and the variant of the known-defect sites the code under test implements -/
 def parseName (s : String) : String × Variant :=
   match s.splitOn "+" with
-  | n :: fl => (n, { x11 := fl.contains "x11fix", keycaps := fl.contains "keycaps", clip := fl.contains "clipfix",
-                  sgr := fl.contains "sgrfix" })
+  | n :: fl =>
+    let v : Variant := { x11 := fl.contains "x11fix", keycaps := fl.contains "keycaps", clip := fl.contains "clipfix", sgr := fl.contains "sgrfix" }
+    (n, v)
   | [] => (s, {})
 
 def run (env : Env) (rest : String) : String :=
